@@ -171,8 +171,8 @@ TABLE["C09"] = {
     "trusted_base": TB_COMMON + ["std::any::type_name renders types by the token grammar of Model/Sig.lean with the spelling of Driver/SigD.spell (validated on the family; lifetimes and `for<..>` binders stripped before comparison)", "the step from distinct token lists to distinct strings"],
     "rule": SIG_RULE,
     "assumptions": ["rustc's rendering of types outside the family follows the same grammar"],
-    "level_text": "Theorems: the gate is exactly equality of the recorded renderings (C09_gate); typed paired with unchecked is always refused because no rendered type is empty (C09_unchecked_mix); identical writing accepted; unsafety, ABI and reference mutability are visible in the rendering; gates precede patching and null is rejected (facts extracted from the source, C09_source). Injectivity of the rendering on the whole grammar is NOT yet proved in Lean (planned: render_inj); on the family it is established by the exhaustive all-pairs run against rustc and the real macros.",
-    "level_note": "Partial: full injectivity of `render` is validated on the 36-type family, not proved for all types.",
+    "level_text": "Theorems: the gate is exactly equality of the recorded renderings (C09_gate); typed paired with unchecked is always refused because no rendered type is empty (C09_unchecked_mix); identical writing accepted; unsafety, ABI and reference mutability are visible in the rendering; gates precede patching and null is rejected (facts extracted from the source, C09_source). the rendering is injective on the whole grammar (C09_render_injective, mutual induction over types / argument lists / tuples / return parts with a follow-set invariant), hence the gate accepts iff the two function-pointer types are structurally identical (C09_gate_iff). The model's rendering is validated against rustc's type_name and the real macros on the exhaustive all-pairs family run.",
+    "level_note": "Assumed: rustc renders types outside the family by the same grammar; distinct token lists spell distinct strings.",
 }
 TABLE["C10"] = {
     "pipelines": [SIG_PIPE, {"name": "enc-x86-debug", "cmd": ["enc-x86"], "n_quick": 10, "n_thorough": 10}, HIST_PIPE],
